@@ -364,7 +364,7 @@ func GenerateTwins(seed uint64, idFlat, idEmb string) (*sdl.Program, *sdl.Progra
 	k.PEmbed = 0
 	k.PDup = 0
 	k.MaxTypes = 4
-	k.PProcComp, k.PZero = 0, 0
+	k.PProcComp, k.PZero, k.PAlt = 0, 0, 0
 	p := genGraph(r, seed, idFlat, FamEmbed, k)
 	// configuration: one raw source, a few fields that never fail
 	src := &sdl.Source{ID: "src0", Kind: "raw", Via: "SetConfigLoader", Doc: genDoc(r, 0.9)}
@@ -393,7 +393,7 @@ func GenerateTwins(seed uint64, idFlat, idEmb string) (*sdl.Program, *sdl.Progra
 			t.Config = append(t.Config, cf)
 		}
 		// frame fields of every kind
-		kinds := []string{"untagged", "unexported", "foreign", "named", "taggedEmbed", "ptrEmbed"}
+		kinds := []string{"untagged", "unexported", "foreign", "named", "taggedEmbed", "ptrEmbed", "lookalike"}
 		for fi, kind := range kinds {
 			if !r.p(0.5) {
 				continue
@@ -437,9 +437,21 @@ func GenerateTwins(seed uint64, idFlat, idEmb string) (*sdl.Program, *sdl.Progra
 	_ = json.Unmarshal([]byte(js), &q)
 	q.ID = idEmb
 	q.Twin = idFlat
-	for _, t := range q.Types {
+	for ti, t := range q.Types {
 		for _, pt := range t.Points {
 			pt.Embed = embedChain(r, 0.8)
+		}
+		// one carrier type embedded at two positions: a point is declared once in the shared
+		// carrier and therefore exists twice in the component (flat twin: two plain fields)
+		if len(t.Points) != 0 && r.p(0.3) {
+			src := t.Points[0]
+			dupFlat := *p.Types[ti].Points[0]
+			dupFlat.Field = src.Field + "b"
+			p.Types[ti].Points = append(p.Types[ti].Points, &dupFlat)
+			src.Embed = []string{"E0", "S0"}
+			dupEmb := *src
+			dupEmb.Field, dupEmb.GoField, dupEmb.Embed = src.Field+"b", src.Field, []string{"E1", "S0"}
+			t.Points = append(t.Points, &dupEmb)
 		}
 		for _, cf := range t.Config {
 			cf.Embed = embedChain(r, 0.8)
